@@ -30,6 +30,21 @@ Inductive sx := XTop | XLit (q : lit).
 Definition kx (x : sx) : sctx := match x with XTop => KT | XLit QS => KS | XLit QD => KD end.
 Definition xk (k : sctx) : sx := match k with K0 | KT => XTop | KS => XLit QS | KD => XLit QD end.
 
+(* inside a # line the C preprocessor's own lexical rules apply: comments and literals *)
+Inductive dsub := DTxt | DSl | DLc | DBlk | DBlkSt | DDq | DSq.
+Definition dtxt (k : cls) : dsub :=
+  match k with kSl => DSl | kDq => DDq | kSq => DSq | _ => DTxt end.
+Definition dstep (d : dsub) (k : cls) : dsub :=
+  match d with
+  | DTxt => dtxt k
+  | DSl => match k with kSl => DLc | kSt => DBlk | _ => dtxt k end
+  | DLc => DLc
+  | DBlk => match k with kSt => DBlkSt | _ => DBlk end
+  | DBlkSt => match k with kSl => DTxt | kSt => DBlkSt | _ => DBlk end
+  | DDq => match k with kDq => DTxt | _ => DDq end
+  | DSq => match k with kSq => DTxt | _ => DSq end
+  end.
+
 Inductive sq :=
 | SBol (k : sctx)       (* only blanks so far on this line *)
 | SIn (x : sx)          (* inside the statement *)
@@ -37,7 +52,7 @@ Inductive sq :=
 | SBang (k : sctx)      (* ! and only letters since; k = what the next line starts in *)
 | SSent (k : sctx)      (* sentinel comment *)
 | SCmt (k : sctx)       (* ordinary comment *)
-| SDir (k : sctx).      (* preprocessor directive line *)
+| SDir (k : sctx) (d : dsub).   (* preprocessor directive line; d = where its C-level scan stands *)
 
 (* unmarked / only blanks of a character literal seen / holds statement text *)
 Inductive mark := mU | mB | mM.
@@ -72,7 +87,7 @@ Definition sstep (s : sst) (k : cls) : sst :=
   | SBol k0 =>
       match k with
       | kSp | kWs => s
-      | kHash => (SDir k0, mM)
+      | kHash => (SDir k0 DTxt, mM)
       | kBang => (SBang k0, m)
       | kAmp => match k0 with K0 => (SAmp XTop, m) | _ => (SIn (xk k0), m) end
       | _ => sin (xk k0) m k
@@ -90,13 +105,14 @@ Definition sstep (s : sst) (k : cls) : sst :=
       | kDol => (SSent k0, mM)
       | _ => (SCmt k0, m)
       end
-  | SSent _ | SCmt _ | SDir _ => s
+  | SSent _ | SCmt _ => s
+  | SDir k0 d => (SDir k0 (dstep d k), m)
   end.
 
 (* what the next line starts in *)
 Definition seol (q : sq) : sctx :=
   match q with
-  | SBol k | SBang k | SSent k | SCmt k | SDir k => k
+  | SBol k | SBang k | SSent k | SCmt k | SDir k _ => k
   | SIn _ => K0
   | SAmp x => kx x
   end.
@@ -104,7 +120,7 @@ Definition seol (q : sq) : sctx :=
 Inductive lclass := NotCounted | Code | Directive.
 Definition classify (s : sst) : lclass :=
   match s with
-  | (SDir _, _) => Directive
+  | (SDir _ _, _) => Directive
   | (_, mM) => Code
   | _ => NotCounted
   end.
@@ -128,7 +144,7 @@ Fixpoint sfile (k : sctx) (n : nat) (ls : list pline) : list (nat * bool) :=
 Definition cguard (s : sst) (k : cls) : bool :=
   match k, s with
   | kBs, _ => false                           (* no backslash anywhere: no C-level escapes or splices *)
-  | kSl, (SDir _, _) => false                 (* no C comment inside a directive line *)
+  | kSl, (SDir _ DSq, _) => false             (* no / inside a character constant of a directive line *)
   | kHash, (SIn _, (mU | mB)) => false        (* # as the first thing after a leading continuation & *)
   | _, _ => true
   end.
@@ -136,7 +152,8 @@ Definition cguard (s : sst) (k : cls) : bool :=
 Definition eguard (s : sst) : bool :=
   match s with
   | (SIn (XLit _), _) => false                (* character literal not closed and not continued *)
-  | (SDir _, _) => true
+  | (SDir _ (DBlk | DBlkSt), _) => false      (* a C block comment of a directive line still open at the line end *)
+  | (SDir _ _, _) => true
   | (_, mB) => false                          (* a continuation line of a literal that holds only blanks of it *)
   | _ => true
   end.
